@@ -4,6 +4,6 @@ CONSTANTS
   MaxEpoch = 2
   MarkPairs = FALSE
 VIEW View
-INVARIANTS ModelSane C01_StatusMatchesReference C01_ViewsAgree C07_LockedNeverGone
-PROPERTIES C07_TombstoneRejected C07_GCKeepsLocked C07_LockAdmission
+INVARIANTS ModelSane C01_StatusMatchesReference C01_ViewsAgree C07_LockedNeverGone G_BlobIsIndexed G_VirtHasChild
+PROPERTIES C07_TombstoneRejected C07_GCKeepsLocked C07_LockAdmission G_EpochMonotone G_GCRemovesOnlyCollectable
 CHECK_DEADLOCK FALSE
